@@ -132,7 +132,7 @@ def step_policy_case(cls):
     return obj_case("%s/SamplingStep" % cls, cls, body, ["%s::SamplingStep" % cls])
 
 
-def iterate_timing_case(cls):
+def iterate_timing_case(cls, prop="C09"):
     fixed = not cls.startswith("Gillespie")
 
     def body(api, I, o, prog):
@@ -143,7 +143,7 @@ def iterate_timing_case(cls):
         fn, _ = prog.method(cls, "Iterate")
         ret = I.call(fn, o, [], fn, Frame("top"))
         f = o.fields
-        P = "C09/%s::Iterate" % cls
+        P = "%s/%s::Iterate" % (prop, cls)
         was = f0["complete"]
         if api.ctx.branch(was):
             c.oblige(P + "/completed-stays-completed", f["complete"])
